@@ -390,13 +390,13 @@ def sliver_desc(draw, cls_key="node", max_props=30, child_props=4, boost=(), sim
         d["components"], d["services"] = [], []
         if allow_children:
             used = set()
-            for i in range(draw(st.sampled_from([0, 1, 1, 2, 3]))):
-                t = draw(st.sampled_from(["SmartNIC", "SmartNIC", "SharedNIC", "FPGA", "GPU", "NVME", "Storage"]))
+            for i in range(draw(st.sampled_from([1, 0, 1, 2, 3]))):
+                t = draw(st.sampled_from(["SmartNIC", "GPU", "SmartNIC", "SharedNIC", "FPGA", "SmartNIC", "NVME", "Storage"]))
                 c = draw(sliver_desc("component", nid=f"{nid}/c{i}", force_type=t, **kw))
                 c["name"] = _uniq(c["name"], used, "component")
                 d["components"].append(c)
             used = set()
-            for i in range(draw(st.sampled_from([0, 0, 1, 2]))):
+            for i in range(draw(st.sampled_from([0, 1, 0, 2]))):
                 s = draw(sliver_desc("service", nid=f"{nid}/s{i}", **kw))
                 s["name"] = _uniq(s["name"], used, "service")
                 d["services"].append(s)
@@ -412,7 +412,7 @@ def sliver_desc(draw, cls_key="node", max_props=30, child_props=4, boost=(), sim
         d["interfaces"] = []
         if allow_children:
             used = set()
-            for i in range(draw(st.sampled_from([0, 1, 2, 2, 3]))):
+            for i in range(draw(st.sampled_from([1, 0, 2, 2, 3]))):
                 # an interface below a service is never itself of type SubInterface; DedicatedPort boosted
                 t = draw(st.sampled_from(["DedicatedPort", "DedicatedPort", "SharedPort", "AccessPort", "TrunkPort",
                                           "ServicePort", "vInt", "StitchPort", "FacilityPort"]))
@@ -423,7 +423,7 @@ def sliver_desc(draw, cls_key="node", max_props=30, child_props=4, boost=(), sim
         d["interfaces"] = []
         if allow_children and ctype == "DedicatedPort":
             used = set()
-            for i in range(draw(st.sampled_from([0, 1, 1, 2]))):
+            for i in range(draw(st.sampled_from([1, 0, 1, 2]))):
                 x = draw(sliver_desc("interface", nid=f"{nid}/u{i}", force_type="SubInterface",
                                      allow_children=False, **kw))
                 x["name"] = _uniq(x["name"], used, "interface")
